@@ -175,6 +175,58 @@ Proof.
     + destruct (parse_error (client_enc ct) r); discriminate.
 Qed.
 
+(* a whole call: request and response side use the same effective content type *)
+Lemma call_validation src h cl ca vs :
+  let ct := effective_ct cl ca in
+  client_enc ct = server_enc ct ->
+  r_status (serve_error src h ct) = 400%Z -> r_body (serve_error src h ct) = BMsg (PValidation vs) ->
+  go_call_outcome src h cl ca = CRValidation vs.
+Proof.
+  cbv zeta. intros E S B. unfold go_call_outcome. apply client_validation; auto.
+  rewrite E. unfold serve_error, write_error. destruct h as [hk|]; [|reflexivity].
+  destruct (hk_write hk); [reflexivity|]. destruct (hk_status hk); reflexivity.
+Qed.
+
+Lemma call_error src h cl ca m :
+  let ct := effective_ct cl ca in
+  client_enc ct = server_enc ct ->
+  (400 < r_status (serve_error src h ct))%Z -> r_body (serve_error src h ct) = BMsg (PError m) ->
+  go_call_outcome src h cl ca = CRError (etext_string m).
+Proof.
+  cbv zeta. intros E S B. unfold go_call_outcome. apply client_error; auto.
+  rewrite E. unfold serve_error, write_error. destruct h as [hk|]; [|reflexivity].
+  destruct (hk_write hk); [reflexivity|]. destruct (hk_status hk); reflexivity.
+Qed.
+
+Lemma effective_override cl c0 c : effective_ct cl (Some (c0 :: c)) = c0 :: c.
+Proof. reflexivity. Qed.
+Lemma effective_default cl : effective_ct cl None = client_default cl /\ effective_ct cl (Some []) = client_default cl.
+Proof. split; reflexivity. Qed.
+
+(* ---- stage order ------------------------------------------------------------------------------------------------ *)
+Lemma first_failure_minimal l : forall st src,
+  first_failure l = Some (st, src) ->
+  In (st, src) l /\ forall st' src', In (st', src') l -> stage_rank st <= stage_rank st'.
+Proof.
+  induction l as [|[sx srx] r IH]; intros st src; [discriminate|].
+  cbn [first_failure fst]. destruct (first_failure r) as [[sy sry]|] eqn:F.
+  - destruct (IH _ _ eq_refl) as [Hin Hmin]. cbn [fst].
+    destruct (Nat.leb (stage_rank sx) (stage_rank sy)) eqn:L; intros H; inversion H; subst.
+    + apply Nat.leb_le in L. split; [left; reflexivity|].
+      intros st' src' [E|Hr]; [inversion E; subst; lia|]. specialize (Hmin _ _ Hr). lia.
+    + apply Nat.leb_gt in L. split; [right; exact Hin|].
+      intros st' src' [E|Hr]; [inversion E; subst; lia|]. eauto.
+  - intros H; inversion H; subst. split; [left; reflexivity|].
+    intros st' src' [E|Hr]; [inversion E; subst; lia|].
+    destruct r as [|y r']; [destruct Hr|]. cbn in F.
+    destruct (first_failure r'); [destruct (Nat.leb _ _)|]; discriminate.
+Qed.
+
+Lemma first_failure_some l x : In x l -> exists y, first_failure l = Some y.
+Proof.
+  destruct l as [|a r]; [intros []|]. intros _. cbn. destruct (first_failure r); [destruct (Nat.leb _ _)|]; eauto.
+Qed.
+
 (* ---- TypeScript ----------------------------------------------------------------------------------------------------------- *)
 Lemma ts_server_status e :
   ts_status (ts_server_error e None) = match e with TValidation _ => 400%Z | _ => 500%Z end.
